@@ -82,7 +82,8 @@ Qed.
 Lemma w_extcodecopy : forall loc off size,
   (zb3 extcodecopy_do loc off size = false -> size = 0) /\ zn3 extcodecopy_a1 loc off size = off /\
   zn3 extcodecopy_a2 loc off size = size /\ zn3 extcodecopy_dst loc off size = loc /\
-  zn3 extcodecopy_none_start loc off size = off /\ zn3 extcodecopy_none_stop loc off size = off + size.
+  (* an account without code: size zero bytes, wherever the empty sequence is read *)
+  zn3 extcodecopy_none_stop loc off size = zn3 extcodecopy_none_start loc off size + size.
 Proof.
   intros. unfold extcodecopy_do, extcodecopy_a1, extcodecopy_a2, extcodecopy_dst,
     extcodecopy_none_start, extcodecopy_none_stop. repeat split; wire.
@@ -276,12 +277,19 @@ Proof.
   cbn [firstn]. rewrite app_nil_r. reflexivity.
 Qed.
 
-(* an account without code reads as zeros *)
-Lemma empty_slice_correct : forall off size,
-  wf (bslice empty off (off + size)) /\ flat (bslice empty off (off + size)) = read_padded [] off size.
+(* an account without code reads as zeros, whatever offset the empty sequence is read at *)
+Lemma read_padded_nil : forall off size, read_padded [] off size = repeat zero size.
 Proof.
-  intros off size. destruct (bslice_correct B zero empty off (off + size) (wf_empty B)) as (H1 & H2 & _).
-  rewrite fa_slice_read_padded in H2. split; assumption.
+  intros off size. unfold MemSpec.read_padded. rewrite skipn_nil. cbn [app].
+  rewrite <- (repeat_length zero size) at 1. apply firstn_all.
+Qed.
+
+Lemma empty_slice_correct : forall a off size,
+  wf (bslice empty a (a + size)) /\ flat (bslice empty a (a + size)) = read_padded [] off size.
+Proof.
+  intros a off size. destruct (bslice_correct B zero empty a (a + size) (wf_empty B)) as (H1 & H2 & _).
+  rewrite fa_slice_read_padded in H2. change (flat (@empty B)) with (@nil B) in H2.
+  rewrite read_padded_nil in H2. rewrite read_padded_nil. split; assumption.
 Qed.
 
 (* copy_returndata_to_memory writes the first min(ret_size, len) bytes of the returndata *)
@@ -406,13 +414,13 @@ Proof.
         destruct (contract_slice_correct B zero (m_code e) off size Hcode) as [H1 H2].
         rewrite <- H2. apply set_mslice_correct; assumption.
       * rewrite (Hdo eq_refl), read_padded_0, mem_write_nil. apply size0_refines. exact Hst.
-    + destruct (w_extcodecopy loc off size) as (Hdo & -> & -> & -> & -> & ->).
+    + destruct (w_extcodecopy loc off size) as (Hdo & -> & -> & -> & ->).
       destruct (zb3 extcodecopy_do loc off size).
       * apply lift_refines; [exact Hst|]. destruct c as [code|]; cbn [abs_src src_bytes].
         -- cbn [mbop_ok] in Hok.
            destruct (contract_slice_correct B zero code off size Hok) as [H1 H2].
            rewrite <- H2. apply set_mslice_correct; assumption.
-        -- destruct (empty_slice_correct B zero off size) as [H1 H2].
+        -- destruct (empty_slice_correct B zero (zn3 extcodecopy_none_start loc off size) off size) as [H1 H2].
            rewrite <- H2. apply set_mslice_correct; assumption.
       * rewrite (Hdo eq_refl).
         destruct c; cbn [abs_src src_bytes]; rewrite read_padded_0, mem_write_nil; apply size0_refines; exact Hst.
